@@ -14,7 +14,8 @@ CHECK = {
         "technique": "property-based testing (rapid, plan-first) with an owned schedule under testing/synctest; oracle from the query log and a closest-k specification",
         "crash_is_violation": True,
         "runs": [
-            {"name": "engine", "run": "^TestC10_Engine", "checks": {"quick": 4000, "thorough": 20000}, "shards": {"quick": 1, "thorough": 16}},
+            {"name": "engine", "run": "^TestC10_Engine$", "checks": {"quick": 4000, "thorough": 20000}, "shards": {"quick": 1, "thorough": 16}},
+            {"name": "busy", "run": "^TestC10_EngineBusyCancel$", "checks": {"quick": 20, "thorough": 100}, "shards": {"quick": 3, "thorough": 8}},
             # exported Lookup / ContentLookup of a real instance over the simulated network against scripted discv5 peers (package p_proto)
             {"name": "net", "package": "p_proto", "run": "^TestC10_Net$", "checks": {"quick": 25, "thorough": 50}, "shards": {"quick": 6, "thorough": 16}, "rounds": {"quick": 1, "thorough": 4}},
         ],
@@ -36,6 +37,6 @@ CHECK = {
             "query functions never return nil nodes (every production query function filters them)",
             "at engine level the asker's own record is an ordinary node of the result (the production worker removes it before the engine sees it; that is checked in the real-instance run)",
         ],
-        "required_classes": {"quick": ["content-found", "content-not-found", "node-lookup-queried", "late-replies-after-lookup-ended", "queries>=4-with-order-choice", "adversarial-answer-processed", "cancel-with-queries-in-flight",
+        "required_classes": {"quick": ["content-found", "content-not-found", "node-lookup-queried", "late-replies-after-lookup-ended", "cancel-while-scanning-a-long-reply", "queries>=4-with-order-choice", "adversarial-answer-processed", "cancel-with-queries-in-flight",
                                        "cancel-and-reply-in-the-same-instant", "empty-table-start", "seen>16", "in-flight-reached-3", "peers:61-200", "peers:0"]},
     }
